@@ -5,6 +5,8 @@
 -/
 import Y0.Lemmas.TianExpr
 import Y0.Lemmas.QFactor
+import Y0.Lemmas.TianLemma1
+import Y0.Lemmas.TianGraph
 import Y0.Spec.TianSpec
 
 namespace Y0
@@ -147,6 +149,92 @@ theorem ancestralQ_sound (hM : M.Compatible G) (hrank : G.Ranked) (σ' : Val)
       simp only [decide_eq_true_eq] at hr'
       exact hr'.2 (hanc a ha r hpar hr'.1))
   rw [this]
+
+/-- Lemma 3 on canonical listings: `Σ_{H ∖ A} Q[H] = Q[A]`, both sets listed in the order of `topo` -/
+theorem sumVars_Q_anc (hM : M.Compatible G) (hrank : G.Ranked) (A H topo : List Name) (hAH : ∀ v ∈ A, v ∈ H)
+    (hsub : ∀ v ∈ H, v ∈ G.nodes) (hanc : AncestralIn G A H) (htnd : topo.Nodup) :
+    sumVars M.card (topo.filter (fun v => v ∈ H ∧ v ∉ A)) (M.Q (topo.filter (· ∈ H))) =
+      M.Q (topo.filter (· ∈ A)) := by
+  set R := topo.filter (fun v => v ∈ H ∧ v ∉ A) with hR
+  set LA := topo.filter (· ∈ A) with hLA
+  have hRnd : R.Nodup := htnd.filter _
+  have hARnd : (LA ++ R).Nodup := by
+    rw [List.nodup_append]
+    refine ⟨htnd.filter _, hRnd, ?_⟩
+    intro a ha b hb e
+    subst e
+    have h1 := (List.mem_filter.mp hb).2
+    have h2 := (List.mem_filter.mp ha).2
+    simp only [decide_eq_true_eq] at h1 h2
+    exact h1.2 h2
+  have hperm : (topo.filter (· ∈ H)).Perm (LA ++ R) := by
+    apply (List.perm_ext_iff_of_nodup (htnd.filter _) hARnd).mpr
+    intro x
+    simp only [List.mem_append, hR, hLA, List.mem_filter, decide_eq_true_eq]
+    constructor
+    · rintro ⟨hxt, hx⟩
+      by_cases hxA : x ∈ A
+      · exact Or.inl ⟨hxt, hxA⟩
+      · exact Or.inr ⟨hxt, hx, hxA⟩
+    · rintro (⟨hxt, hx⟩ | ⟨hxt, hx, _⟩)
+      · exact ⟨hxt, hAH x hx⟩
+      · exact ⟨hxt, hx⟩
+  rw [Scm.Q_perm M hperm]
+  exact Scm.Q_ancestral hM hrank LA R hARnd
+    (by
+      intro x hx
+      have := (hperm.mem_iff.mpr hx)
+      exact hsub x (by simpa using (List.mem_filter.mp this).2))
+    (by
+      intro a ha r hr hpar
+      have hr' := (List.mem_filter.mp hr).2
+      have ha' := (List.mem_filter.mp ha).2
+      simp only [decide_eq_true_eq] at hr' ha'
+      exact hr'.2 (hanc a ha' r hpar hr'.1))
+
+/-- **Lemma 1 (i) is sound** for a probability `P_w(H | Z)` that denotes `Q[H]` -/
+theorem lemma1_sound (hM : M.Compatible G) (hG : G.WF) (hrank : G.Ranked) (σ' : Val)
+    (H : List Name) (hnd : H.Nodup) (hsub : ∀ v ∈ H, v ∈ G.nodes) (htopo : TopoOrdered G H)
+    (D : List Name) (hDnd : D.Nodup) (hDH : ∀ v ∈ D, v ∈ H) (hclosed : BiClosedIn G D H)
+    (pop : Option Var) (ch pa : List Var) (e : Expr) (hshape : ProbShape G.nodes (.prob pop ch pa) H)
+    (hq : ∀ σ, den (M.env G) σ' (.prob pop ch pa) σ = M.Q H σ)
+    (h : lemma1 D (.prob pop ch pa) H = .ok e) (σ : Val) : den (M.env G) σ' e σ = M.Q D σ := by
+  rw [TianLemma1.den_lemma1 hM hG σ' hshape hnd hsub h σ (qRatio M H σ)
+    (fun v p s e => qRatio_eq_ratio hM hrank σ' H hnd hsub _ hq σ v p s e)]
+  exact qRatio_prod hM hG hrank H hnd hsub htopo D hDnd hDH hclosed σ
+
+theorem probShape_congr {nodes : List Name} {q : Expr} {H H' : List Name} (hp : H.Perm H')
+    (h : ProbShape nodes q H) : ProbShape nodes q H' := by
+  cases q with
+  | prob pop ch pa =>
+    obtain ⟨w, h1, h2, h3, h4⟩ := h
+    exact ⟨w, h1.trans hp, h2, fun i hi => ⟨(h3 i hi).1, fun hm => (h3 i hi).2.1 (hp.mem_iff.mpr hm), (h3 i hi).2.2⟩,
+      fun p hp' => ⟨fun hm => (h4 p hp').1 (hp.mem_iff.mpr hm), (h4 p hp').2⟩⟩
+  | _ => trivial
+
+/-- **`compute_c_factor` is sound**, whichever lemma the type of the expression selects -/
+theorem computeCFactor_sound (hM : M.Compatible G) (hG : G.WF) (hrank : G.Ranked) (σ' : Val)
+    (topo S : List Name) (htnd : topo.Nodup) (hord : TopoOrdered G topo)
+    (hsub : ∀ v ∈ topo.filter (· ∈ S), v ∈ G.nodes)
+    (D : List Name) (hDnd : D.Nodup) (hDH : ∀ v ∈ D, v ∈ topo.filter (· ∈ S))
+    (hclosed : BiClosedIn G D (topo.filter (· ∈ S)))
+    (q e : Expr) (hshape : ProbShape G.nodes q (topo.filter (· ∈ S)))
+    (hq : ∀ σ, den (M.env G) σ' q σ = M.Q (topo.filter (· ∈ S)) σ)
+    (h : computeCFactor D S q topo = .ok e) (σ : Val) : den (M.env G) σ' e σ = M.Q D σ := by
+  unfold computeCFactor at h
+  simp only at h
+  have hfilter : (topo.filter fun x => decide (x ∈ S)) = topo.filter (· ∈ S) := rfl
+  split at h
+  · exact lemma4_sound hM hG hrank σ' _ (htnd.filter _) hsub (TianGraph.topoOrdered_filter hord _) D hDnd hDH hclosed
+      q e hq h σ
+  · split at h
+    · cases h
+    · rename_i hprob
+      cases q with
+      | prob pop ch pa =>
+        exact lemma1_sound hM hG hrank σ' _ (htnd.filter _) hsub (TianGraph.topoOrdered_filter hord _) D hDnd hDH
+          hclosed pop ch pa e hshape hq h σ
+      | _ => simp [isProb] at hprob
 
 end TianSound
 end Y0
